@@ -141,7 +141,7 @@ def check(run):
             if report("homomorphism", ell, float(np.max(np.abs(BD[la][ell] @ BD[lb][ell] - C[ell]))), {"R1": list(Ra), "R2": list(Rb), "ell_max": LB}, f"{la}*{lb}"):
                 break
     run.notes["worst_over_(ell+1)eps"] = {k: round(v, 4) for k, v in worst.items()}
-    run.assumptions += ["homomorphism / unitarity are not proved (they need the identification of the recursion with the documented polynomial): oracle sweep only",
+    run.assumptions += ["homomorphism, unitarity, inverse, negation, identity and conjugation symmetry are proved in exact arithmetic for every ell (HomAll.D_*_all); the (ell+1) eps deviation bounds are swept, not proved",
                         "bounds are fixed multiples of (ell+1) eps, >= 8x the worst deviation measured on the pinned tree"]
 
 
